@@ -112,9 +112,28 @@ def run(repo, rep, tier):
     npf = repo.own_method(b, "_numpy")
     ok = False
     for n in walk_local_stmt(npf.node):
-        if isinstance(n, ast.Assign) and isinstance(n.targets[0], ast.Subscript):
-            txt = ast.unparse(n.targets[0].slice).replace(" ", "")
-            if (">=self.num" in txt or "==self.num" in txt or ">self.num-1" in txt) and "self.num-1" in ast.unparse(n.value).replace(" ", ""):
+        if isinstance(n, ast.Assign) and isinstance(n.targets[0], ast.Subscript) and isinstance(n.targets[0].value, ast.Name):
+            arr = n.targets[0].value.id
+            sn = npf.params[0]
+
+            def is_num(e):
+                return ast.unparse(e).replace(" ", "") == f"{sn}.num"
+
+            def is_num_m1(e):
+                return ast.unparse(e).replace(" ", "") in (f"{sn}.num-1", f"{sn}.num-1.0")
+
+            def is_arr(e):
+                return isinstance(e, ast.Name) and e.id == arr
+
+            selects_overflowing = False
+            for cmpn in ast.walk(n.targets[0].slice):
+                if isinstance(cmpn, ast.Compare) and len(cmpn.ops) == 1:
+                    a, op, b2 = cmpn.left, cmpn.ops[0], cmpn.comparators[0]
+                    # idx >= num | num <= idx | idx > num-1 | num-1 < idx | idx == num | num == idx
+                    if (is_arr(a) and is_num(b2) and isinstance(op, (ast.GtE, ast.Eq))) or (is_num(a) and is_arr(b2) and isinstance(op, (ast.LtE, ast.Eq))) \
+                            or (is_arr(a) and is_num_m1(b2) and isinstance(op, ast.Gt)) or (is_num_m1(a) and is_arr(b2) and isinstance(op, ast.Lt)):
+                        selects_overflowing = True
+            if selects_overflowing and is_num_m1(n.value):
                 ok = True
         if isinstance(n, ast.Call) and (call_name(n) or "").split(".")[-1] in ("clip", "minimum"):
             ok = True
